@@ -5,7 +5,7 @@ import "strings"
 func init() {
 	register(&propInfo{
 		ID:          "C13",
-		Explanation: "Decides that the schema-less walker's case analysis mirrors the codecs': (T.walker-exh) Descriptor.read has a clause for every FieldType constant; (T.walker-codec) each scalar clause decodes with a codec whose own Descriptor reports that field type and emits one value per decode; (T.walker-split) in readAsSlice a field type is in the packed clause iff every codec reporting it uses a scalar wire type, in the counted clause iff some codec reporting it is length-delimited, and in neither if it can only be counted; (X.oneoutput) every path round the counted element loop of readAsSlice passes through the element reader (no dropped empty elements); (S.same-desc) codecs with equal descriptors have equal emission grammars - except the listed known findings (proto-mode codecs); the walker is part of the decode closure, so C04's obligations cover it.",
+		Explanation: "Decides that the schema-less walker's case analysis mirrors the codecs': (T.walker-exh) Descriptor.read has a clause for every FieldType constant; (T.walker-codec) each scalar clause decodes with a codec whose own Descriptor reports that field type and emits one value per decode; (T.walker-split) in readAsSlice a field type is in the packed clause iff every codec reporting it uses a scalar wire type, in the counted clause iff some codec reporting it is length-delimited, and in neither if it can only be counted; (X.oneoutput) every path round the counted element loop of readAsSlice passes through the element reader (no dropped empty elements); (S.same-desc) codecs with equal descriptors have equal emission grammars - except the listed known findings (proto-mode codecs); the walker is part of the decode closure, so C04's obligations cover it. (T.jsondispatch.walker, round 15) the walker's case for every JSON type code calls the output method or nested walk of that kind, with a descriptor of that kind.",
 		NotDecided:  "Equality of the rendered JSON with the typed decode; invalid JSON from zero values / empty keys in string-keyed maps (state-dependent, see C15); descriptor serialisation round trips.",
 		Assumptions: []string{"A4", "A5"},
 		Run: func(c *Ctx) {
@@ -45,6 +45,9 @@ func init() {
 			rulePresenceStore(c)
 			ruleSkipAfterTag(c)
 			ruleWalkerEntry(c)
+			// the walker's case for each JSON type code calls the output method / nested walk of that very kind
+			// (an object inside an array walked with the enclosing array's descriptor: C13-r15-m2)
+			ruleJSONDispatch(c)
 			// the walker's own guards are exact, and the outputter's table accesses are in range for every depth
 			ruleTightGuards(c, decodeBound(c.P), func(n string) bool { return strings.Contains(n, "Descriptor.") })
 			ruleJOutBounds(c)
